@@ -1304,7 +1304,7 @@ class Machine:
                 a = self.load(a, st)
             argv.append(a)
         if short in MATH and (callee == short or callee.startswith('std::') or callee.startswith('boost::math')):
-            return self.app(short, [self.num(a) for a in argv])
+            return self.app(short, [self.num(self.load(a, st)) for a in argv])
         if callee.startswith('std::numeric_limits'):
             return Poly.atom(('app', callee))
         if callee.startswith('boost::math::constants::') and not ch:
